@@ -844,6 +844,17 @@ fn cmd_fingerprints(args: &[String]) -> i32 {
     let to: u64 = arg(args, "--to").and_then(|s| s.parse().ok()).unwrap_or(100);
     let threads: usize = arg(args, "--threads").and_then(|s| s.parse().ok()).unwrap_or(1);
     let menu = types::menu();
+    if let Some(list) = arg(args, "--only") {
+        // exactly these run indices (the interpreter cross-check passes the indices the native pass selected, so that
+        // the interpreter does not have to generate thousands of runs just to skip them)
+        for i in list.split(',').filter_map(|x| x.parse::<u64>().ok()) {
+            let spec = gen::make_run(seed, i, &menu);
+            let ty = by_name(&menu, &spec.ty).unwrap();
+            let r = exec::run(&spec, ty, false);
+            println!("{} {:016x} {} {}", i, r.fingerprint, r.draws, r.violations.len());
+        }
+        return 0;
+    }
     if let Some(count) = arg(args, "--fill-focus").and_then(|s| s.parse::<usize>().ok()) {
         // for the interpreter cross-check (Miri): the first `count` runs at or after `from` that exercise the
         // unsafe byte view (Fill / try_fill_slice) or Standard on a small type; single-threaded, in index order
@@ -855,7 +866,13 @@ fn cmd_fingerprints(args: &[String]) -> i32 {
             let wanted = ty.bytes() <= 40
                 && spec.ops.len() <= 6
                 && spec.ops.iter().map(|o| o.calls.len()).sum::<usize>() <= 24
-                && spec.ops.iter().any(|o| matches!(o.kind, spec::OpKind::Fill { .. } | spec::OpKind::FillVsElem { .. }));
+                && spec.ops.iter().any(|o| matches!(o.kind, spec::OpKind::Fill { .. } | spec::OpKind::FillVsElem { .. }))
+                // nothing an interpreter would need hours for: no megabyte fills, no stalls of tens of thousands of draws
+                && spec.ops.iter().all(|o| match &o.kind {
+                    spec::OpKind::Fill { len, .. } | spec::OpKind::FillVsElem { len, .. } => len * ty.bytes() <= 8192,
+                    _ => true,
+                })
+                && spec.ops.iter().all(|o| o.calls.iter().all(|c| c.iter().all(|p| !matches!(p, simrng::Plan::RepeatN(_))) && c.len() <= 40));
             if wanted {
                 let r = exec::run(&spec, ty, false);
                 println!("{} {:016x} {} {}", i, r.fingerprint, r.draws, r.violations.len());
